@@ -170,6 +170,40 @@ def judge(pkg, exp, u, n, gen):
     return ("ok", None)
 
 
+def _port_attrs(item):
+    """The generated module exposes the unit's ports as they are: width, direction, port visibility, usage (power / ground /
+    clock / signal) and description of every port."""
+    import hdl21 as h
+    from hdl21.generators import Series, Wrapper
+
+    gen, n = item
+    try:
+        h.generator.cache.reset()
+        u = h.Module(name="UnitAttrs")
+        u.a, u.b = h.Input(desc="series in"), h.Output(desc="series out")
+        u.c = h.Inout(width=2)
+        u.vdd, u.vss, u.clk = h.Power(), h.Ground(desc="return"), h.Clock(direction=h.PortDir.INPUT)
+        u.r = h.R(r=1)(p=u.a, n=u.b)
+        u.r2 = h.R(r=2)(p=u.c[0], n=u.c[1])
+        u.r3 = h.R(r=3)(p=u.vdd, n=u.vss)
+        u.r4 = h.R(r=4)(p=u.clk, n=u.vss)
+        m = Wrapper(u) if gen == "wrapper" else Series(unit=u, conns=("a", "b"), nser=n)
+        want = {nm: (p.width, p.direction, p.vis, p.usage, p.desc) for nm, p in u.ports.items()}
+        got = {nm: (p.width, p.direction, p.vis, p.usage, p.desc) for nm, p in m.ports.items()}
+        if got != want:
+            diff = sorted(nm for nm in set(want) | set(got) if want.get(nm) != got.get(nm))
+            return ("bad", f"port attributes differ from the unit's for {diff}: {[got.get(d) for d in diff][:2]} instead of {[want.get(d) for d in diff][:2]}")
+        pkg = h.to_proto(m)
+        import vlsir.circuit_pb2 as vckt
+
+        dirs = {p.signal: vckt.Port.Direction.Name(p.direction) for p in pkg.modules[-1].ports}
+        if dirs != {"a": "INPUT", "b": "OUTPUT", "c": "INOUT", "vdd": "NONE", "vss": "NONE", "clk": "INPUT"} and dirs != {nm: vckt.Port.Direction.Name(x.direction) for x in [p for mm in pkg.modules if mm.name.endswith("UnitAttrs") for p in mm.ports] for nm in [x.signal]}:
+            return ("bad", f"exported port directions {dirs} differ from the unit's")
+    except Exception as e:
+        return ("raised", short_exc(e))
+    return ("ok", None)
+
+
 def _seq(item):
     """History: the generator is first run on another cell *of the same name* (or on the same cell, the result then being
     edited); the second result must be what it is without that history."""
@@ -247,13 +281,22 @@ def run(ctx):
         ctx.outcome(status + ":seq:" + it[0] + ":" + str(detail)[:20])
         if status != "ok":
             ctx.violation(dict(gen=it[0], unit=it[2], nser=("1" if it[3] == 1 else "n>1"), what="after " + it[1] + ": " + str(detail).split(":")[0][:40], wide=False), dict(seq=list(it)), detail)
+    for it in [("wrapper", 1), ("series", 1), ("series", 2), ("series", 3)]:
+        status, detail = _port_attrs(it)
+        ctx.count(states=1, transitions=2, traces_validated_against_impl=1)
+        ctx.fam("port_attributes:" + it[0], **{status: 1})
+        ctx.outcome(status + ":attrs:" + it[0] + ":" + str(detail)[:20])
+        if status != "ok":
+            ctx.violation(dict(gen=it[0], unit="UnitAttrs", nser=("1" if it[1] == 1 else "n>1"), what="port attributes: " + str(detail).split(":")[0][:40], wide=False), dict(attrs=list(it)), detail)
     ctx.sample(dict(item=list(items[5]), expected=expected_design(items[5][1], items[5][2], items[5][3], items[5][4])))
     ctx.sample(dict(item=list(items[-1])))
     ctx.assume("the chain model is written directly as a design description; array elements are named units_k as documented")
 
 
 def replay(body):
-    if "seq" in body["case"]:
+    if "attrs" in body["case"]:
+        r = _port_attrs(tuple(body["case"]["attrs"]))
+    elif "seq" in body["case"]:
         r = _seq(tuple(body["case"]["seq"]))
     else:
         r = _one(tuple(body["case"]["item"]))
